@@ -7,9 +7,11 @@ VERIF = os.path.dirname(os.path.dirname(os.path.abspath(__file__)))
 def sh(cmd, cwd=None):
     p = subprocess.run(cmd, shell=True, cwd=cwd, stdout=subprocess.PIPE, stderr=subprocess.STDOUT)
     return p.returncode, p.stdout.decode(errors='replace')
-FILES = {'_parser.py': ['C01', 'C02', 'C15'], '_checks.py': ['C04', 'C05', 'C06', 'C14', 'C15', 'C01'],
-         'policy.py': ['C03', 'C07', 'C08', 'C09', 'C10', 'C11', 'C12', 'C13', 'C20'],
-         '_cache_handler.py': ['C10'], 'generator.py': ['C17', 'C18', 'C13'], 'shell.py': ['C19'], '_external.py': ['C16']}
+FILES = {'_parser.py': ['C01', 'C02', 'C15', 'C13', 'C05'],
+         '_checks.py': ['C01', 'C03', 'C04', 'C05', 'C06', 'C14', 'C15', 'C16'],
+         'policy.py': ['C03', 'C06', 'C07', 'C08', 'C09', 'C10', 'C11', 'C12', 'C13', 'C14', 'C15', 'C17', 'C18', 'C19', 'C20'],
+         '_cache_handler.py': ['C09', 'C10', 'C12', 'C20'], 'generator.py': ['C17', 'C18', 'C13'], 'shell.py': ['C19'],
+         '_external.py': ['C16'], 'opts.py': ['C03', 'C08', 'C09']}
 def main():
     diff = sys.argv[1]
     txt = open(diff).read()
@@ -19,16 +21,34 @@ def main():
             props += [p for p in ps if p not in props]
     if len(sys.argv) > 2:
         props = sys.argv[2:]
-    rc, o = sh('git -C /repo status --short')
-    if o.strip():
-        print('repo not clean'); return 2
-    rc, o = sh('git -C /repo apply ' + diff)
-    if rc:
-        print('patch does not apply', o); return 2
+    iso = os.environ.get('EVAL_ISOLATED')
+    if iso:
+        # a private copy of /verif checks a patched scratch worktree: /repo and /verif stay untouched
+        tag = re.sub(r'\W', '_', os.path.basename(os.path.dirname(diff)) + '_' + os.path.basename(diff))
+        wt = '/tmp/hev_' + tag
+        vcopy = '/root/scratch/vh_' + tag
+        sh('git -C /repo worktree remove --force ' + wt)
+        sh('git -C /repo worktree add --detach %s HEAD' % wt)
+        rc, o = sh('git -C %s apply %s' % (wt, diff))
+        if rc:
+            print('patch does not apply', o); sh('git -C /repo worktree remove --force ' + wt); return 2
+        sh('mkdir -p /root/scratch && rm -rf %s && rsync -a --exclude .git --exclude _work --exclude replays '
+           '--exclude seeded %s/ %s/' % (vcopy, VERIF, vcopy))
+        where, env = vcopy, dict(os.environ, VERIF_REPO=wt)
+    else:
+        rc, o = sh('git -C /repo status --short')
+        if o.strip():
+            print('repo not clean'); return 2
+        rc, o = sh('git -C /repo apply ' + diff)
+        if rc:
+            print('patch does not apply', o); return 2
+        where, env = VERIF, None
     res = {}
     try:
         for p in props:
-            rc, o = sh('./check %s' % p, cwd=VERIF)
+            pr = subprocess.run('./check %s' % p, shell=True, cwd=where, env=env, stdout=subprocess.PIPE,
+                                stderr=subprocess.STDOUT)
+            rc, o = pr.returncode, pr.stdout.decode(errors='replace')
             v = [l for l in o.splitlines() if l.startswith('VIOLATION')]
             kind = 'ok' if rc == 0 else ('no-failing-input-found' if all(l.endswith('no-failing-input-found') for l in v) else 'FALSE-ALARM-WITH-INPUT')
             detail = ''
@@ -39,10 +59,16 @@ def main():
                     detail = json.dumps(r.get('obligation') or r.get('description'), default=str)[:600]
                 except Exception:
                     pass
+            elif rc:
+                detail = o[-400:]
             res[p] = (kind, detail)
     finally:
-        sh('git -C /repo checkout -- .')
-        sh('./build.sh', cwd=VERIF)
+        if iso:
+            sh('rm -rf ' + vcopy)
+            sh('git -C /repo worktree remove --force ' + wt)
+        else:
+            sh('git -C /repo checkout -- .')
+            sh('./build.sh', cwd=VERIF)
     print(os.path.basename(os.path.dirname(diff)) + '/' + os.path.basename(diff), {p: k for p, (k, d) in res.items()})
     for p, (k, d) in res.items():
         if k != 'ok':
